@@ -58,6 +58,7 @@ MUTANTS = [
     ("C19", "config/config_service.py", "        for path in in_app_exclude:\n            if filename.startswith(path):\n                return False, path\n\n        for path in in_app_include:\n            if filename.startswith(path):\n                return True, path",
      "        for path in in_app_include:\n            if filename.startswith(path):\n                return True, path\n\n        for path in in_app_exclude:\n            if filename.startswith(path):\n                return False, path"),
     ("C02", "processor/frame_collector.py", "return filename[len(match):], is_app_frame", "return filename[len(match) + 1:], is_app_frame"),
+    ("C08", "api/tracepoint/tracepoint_config.py", "        if self._line_no < 0:\n            return 0\n        return self._line_no", "        return self._line_no"),
     ("C18", "api/resource/__init__.py", '        if self.schema_url == "":\n            schema_url = other.schema_url', '        if self.schema_url == "":\n            schema_url = self.schema_url'),
     ("C18", "api/resource/__init__.py", "        merged_attributes.update(other.attributes)\n", ""),
     ("C18", "api/attributes/__init__.py", "self._dict.popitem(last=False)\n                    self.dropped += 1", "self._dict.popitem(last=False)"),
@@ -87,7 +88,7 @@ FULL = "--full" in sys.argv          # run the whole quick check of the mutant's
 sel = [a for a in sys.argv[1:] if a != "--full"]
 if sel:
     MUTANTS = [m for m in MUTANTS if m[0] in sel]
-ALL = ["C02", "C03", "C04", "C05", "C07", "C10", "C11", "C12", "C13", "C14", "C15", "C17", "C18", "C19", "C20"]
+ALL = ["C02", "C03", "C04", "C05", "C07", "C08", "C10", "C11", "C12", "C13", "C14", "C15", "C17", "C18", "C19", "C20"]
 
 
 def verdicts():
